@@ -234,6 +234,86 @@ def _reentrancy_shard(shard, n, tier, seed, budget_s):
     rep["distinct"] = len(rep["distinct"])
     return rep
 
+def _operator_cells(tier):
+    """VM-level operations (no core library call involved) over the boundary pool, and literal grids."""
+    from . import pools
+    pool = pools.POOL
+    ops = ["+", "-", "*", "/", "%", "^", "==", "!=", "<", "<=", ">", ">=", "and", "or"]
+    for a in pool:
+        yield "x = -%s" % a
+        yield "x = not %s" % a
+        yield "x = size %s" % a
+        yield "x = '{%s}'" % a if "'" not in a and '"' not in a else "y = %s\nx = '{y}'" % a
+        yield "y = %s\nx = '{y:?}'" % a
+        yield "for q in %s\n  break" % a
+        yield "a, b, c... = %s" % a
+        yield "f = |(p, others...)| p\nx = f %s" % a
+        yield "f = |args...| size args\nx = f %s..." % a
+        yield "x = obj %s..." % a
+        yield "x = match %s\n  (1, ...) then 1\n  (..., 2) then 2\n  {a} then 3\n  [x, y] then 4\n  'a' then 5\n  else 6" % a
+        for b in pool:
+            for op in ops:
+                yield "x = %s %s %s" % (a, op, b)
+            for op in ops[:6]:
+                yield "x = %s\nx %s= %s" % (a, op, b)
+            yield "x = %s[%s]" % (a, b)
+            yield "y = %s\ny[%s] = 1" % (a, b)
+            yield "x = %s[%s..]" % (a, b) if b.lstrip("(-").split(" ")[0].replace(".", "").isdigit() else "x = %s[0..1]" % a
+    ints = ["0", "1", "-1", "2", "3", "-3", "64", "255", "256", "65535", "65536", "70000", "4294967295", "4294967296", "9223372036854775807", "(-9223372036854775807 - 1)"]
+    for c in ("[1, 2, 3]", "(1, 2, 3)", "'héllo'", "{a: 1, b: 2}", "(1..5)"):
+        for a in ints:
+            for b in ints:
+                yield "x = %s[%s..%s]" % (c, a, b)
+                yield "x = %s[%s..=%s]" % (c, a, b)
+            yield "x = %s[..%s]" % (c, a)
+            yield "x = %s[%s..]" % (c, a)
+            yield "y = %s\ny[..%s] = 0" % (c, a)
+    # literals: escapes and format specifications
+    for n in range(0, 14):
+        for d in ("f", "0", "1", "a"):
+            yield "x = '\\u{%s}'" % (d * n)
+            yield "x = '\\x%s'" % (d * n)
+    nums = ["", "0", "1", "7", "255", "256", "65535", "65536", "70000", "4294967295", "4294967296", "99999999999999999999"]
+    vals = ["1", "1.5", "-1.5", "'ab'", "[1]", "null", "(0 / 0)", "(1 / 0)", "9223372036854775807"]
+    for wdt in nums:
+        for prec in nums:
+            for rep in ("", "?", "e", "E", "x", "b", "o", "X"):
+                spec = wdt + ("." + prec if prec else "") + rep
+                if not spec:
+                    continue
+                if len(wdt) > 6 and tier != "thorough":
+                    continue
+                for v in vals:
+                    if wdt in ("4294967295", "4294967296", "99999999999999999999", "70000", "65536", "65535") and v != "1.5":
+                        continue  # huge widths allocate: one value is enough
+                    yield "v = %s\nx = '{v:%s}'" % (v, spec)
+                    if len(wdt) <= 3:
+                        yield "v = %s\nx = '{v:*<%s}'" % (v, spec)
+
+def _operators_shard(shard, n, tier, seed, budget_s):
+    from . import pools
+    w = Worker()
+    t_end = time.time() + budget_s
+    rep = _new_rep()
+    for idx, body in enumerate(_operator_cells(tier)):
+        if idx % n != shard:
+            continue
+        if time.time() > t_end:
+            rep["inconclusive_budget"] = True
+            break
+        src = pools.PRELUDE + "try\n" + "\n".join("  " + l for l in body.split("\n")) + "\ncatch _\n  null\n"
+        r = w.exec(src, timeout=20, limit_ms=2000)
+        rep["evaluations"] += 1; rep["cells"] += 1
+        rep["distinct"].add(sha(body))
+        if r.get("outcome") not in ("compile_error",):
+            rep["compiled"] += 1; rep["ran"] += 1
+        _observe(rep, "exec", src, r, "operators")
+        if len(rep["samples"]) < 1 and idx > 50:
+            rep["samples"].append({"cell": body})
+    w.close()
+    rep["distinct"] = len(rep["distinct"])
+    return rep
+
 def _noise_shard(shard, n, tier, seed, budget_s):
     """(b) token soups and byte noise"""
     w = Worker()
@@ -312,7 +392,8 @@ def run(tier, seed):
     streams = [("neighbourhood", _neighbourhood_shard, 40 if quick else 900),
                ("noise", _noise_shard, 15 if quick else 300),
                ("corelib", _corelib_shard, 60 if quick else 1500),
-               ("reentrancy", _reentrancy_shard, 60)]
+               ("reentrancy", _reentrancy_shard, 60),
+               ("operators", _operators_shard, 90 if quick else 900)]
     cov = {"evaluations": 0, "distinct_nontrivial": 0, "samples": [], "panic_signatures": {}, "streams": {},
            "excluded_alloc_or_stack": 0, "hangs": 0}
     # witnesses of the recorded findings are replayed first
